@@ -110,6 +110,28 @@ pub fn dispatch(t: &[&str]) -> String {
         "seq" => seq(t),
         // hevc <chunk_size> <hex>: hevc_parser's view of a stream: NALs with frame indices, ordered frames
         "hevc" => hevc_view(t),
+        // rpufile <chunk_size> <hex>: write the bytes to a temp file and read it with parse_rpu_file
+        "rpufile" => {
+            let cs = t[1];
+            let data = unhex(t[2]);
+            let path = std::env::temp_dir().join(format!("dvh_rpufile_{}.bin", std::process::id()));
+            std::fs::write(&path, &data).unwrap();
+            if cs == "0" {
+                std::env::remove_var("DOVI_TOOL_VERIF_CHUNK_SIZE");
+            } else {
+                std::env::set_var("DOVI_TOOL_VERIF_CHUNK_SIZE", cs);
+            }
+            let r = dolby_vision::rpu::utils::parse_rpu_file(&path);
+            let _ = std::fs::remove_file(&path);
+            match r {
+                Ok(rpus) => format!(
+                    "ok {} {}",
+                    rpus.len(),
+                    if rpus.is_empty() { "-".to_string() } else { rpus.iter().map(|r| r.rpu_data_crc32.to_string()).collect::<Vec<_>>().join(",") }
+                ),
+                Err(_) => "err".into(),
+            }
+        }
         _ => panic!("unknown op {}", t[0]),
     }
 }
